@@ -253,6 +253,9 @@ def pool():
         ('%%c\n%s' % a, {}, 'insert'),
         ('\\%s{%s}{%s}' % (y, a, a), {}, 'args.pop'),
         ('%s' % a, {}, 'insert'),
+        ('$\\infty$', {}, 'args.append'),
+        ('\\noindent %s\\cup' % a, {}, 'args.append'),
+        ('%s\r\n\\%s\r\n{%s}' % (a, x, b), {}, 'rename'),
     ]
 
 
@@ -458,6 +461,10 @@ def run_shard(shard):
             else:
                 for path, text in layers.sample_texts():
                     check_forms(acc, text, tmpdir, False)
+                n = gram.Names(seed())
+                for text in ('%s\r\n%s' % (n.a, n.b), '\\%s\r\n{%s}' % (n.x, n.a), '%s\r%s\n\r\n' % (n.a, n.b),
+                             '%%c\r\n%s' % n.a, '\\%s\n\r{%s}\r\n\r\n' % (n.x, n.a), '\r\n', '\n\r\n'):
+                    check_forms(acc, text, tmpdir, True)
         finally:
             shutil.rmtree(tmpdir, ignore_errors=True)
     elif kind == 'orders':
